@@ -192,7 +192,7 @@ func storesFor(fname string) (stores, srcs []string) {
 	if fname == "P0" {
 		return fx.StoreNames, append(append([]string{}, allSrcs...), "rstruct")
 	}
-	if fname == "S2" || fname == "S3" || fname == "S4" || fname == "S5" || fname == "S7" {
+	if fname == "S2" || fname == "S3" || fname == "S4" || fname == "S5" || fname == "S7" || fname == "S8" {
 		// typed values: map-backed stores only (no struct types are declared for S2)
 		return []string{"rmap", "nmap", "rslice", "nslice"}, []string{"json", "rmap", "nmap", "nslice"}
 	}
